@@ -312,9 +312,14 @@ def _analyze_command(
         return _combine(decisions)
 
     # Conditional test commands ([ and test) - read-only, safe after cmdsub check
+    # (unless a user rule matches them: rules always decide)
     if base in ("[", "test"):
-        decisions.append(Decision("allow", "conditional test"))
-        return _combine(decisions)
+        from dippy.core.config import SimpleCommand, match_command
+
+        test_cmd = SimpleCommand(words=words[base_idx:])
+        if match_command(test_cmd, config, cwd, remote=remote) is None:
+            decisions.append(Decision("allow", "conditional test"))
+            return _combine(decisions)
 
     cmd_decision = _analyze_simple_command(words, config, cwd, remote=remote)
     decisions.append(cmd_decision)
